@@ -45,7 +45,7 @@ def bdFirstFix (spec : DeclSpec) (decls : List DeclInfo) (d0 : DeclInfo) : P (De
       let td := mk .TypeDecl co [names.head!, .none, .none, .list spec.alignment]
       pure ({ spec with type := spec.type.dropLast }, { d0 with decl := td } :: decls.tail)
   else if !isInstance d0.decl [.Enum, .Struct, .Union, .IdentifierType] then
-    let fuel := d0.decl.size + 1
+    let fuel := d0.decl.tlen + 1
     let tail ← attrOrCrash (innerTypeDecl fuel d0.decl) "decls_0_tail.type"
     let dn ← attrOrCrash (tail.getAttr "declname") "declname"
     if dn.isNone then
